@@ -4,6 +4,7 @@ import (
 	"fmt"
 	"io"
 	"net"
+	"os"
 	"strconv"
 	"strings"
 	"sync"
@@ -37,17 +38,23 @@ type sessRec struct {
 	LoginAt int64 // stamp before the login reply was written
 	sess    *h.FakeSession
 
-	mu            sync.Mutex
-	regs          map[string]int64
-	nRegs         int
-	pingAt        []int64
-	pongAt        []int64 // stamps before each valid pong was written
-	errPongAt     []int64
-	silentFrom    int64
-	goSilent      bool
-	closedAt      int64
-	closedByFake  bool
-	answeredUntil int
+	mu           sync.Mutex
+	regs         map[string]int64
+	nRegs        int
+	pingAt       []int64
+	pongAt       []int64 // stamps before each valid pong was written
+	errPongAt    []int64
+	silentFrom   int64
+	goSilent     bool
+	closedAt     int64
+	closedByFake bool
+	workConns    []*wcRec
+}
+
+// wcRec is a work connection the client opened for a session and the scripted server never started.
+type wcRec struct {
+	openedAt int64
+	endedAt  int64 // the client (or a relay cut) ended it
 }
 
 type loginRec struct {
@@ -66,6 +73,8 @@ type fakeCtl struct {
 	seq   int
 	// every login before this instant is refused (duration-based refusal)
 	refuseUntil int64
+	// every session accepted before this instant is dropped right after the login reply
+	dropUntil int64
 }
 
 func (f *fakeCtl) push(b ...fakeBeh) { f.mu.Lock(); f.queue = append(f.queue, b...); f.mu.Unlock() }
@@ -110,6 +119,8 @@ func (f *fakeCtl) onLogin(fs *h.FakeServer, l *msg.Login) (*msg.LoginResp, bool)
 	b := benign
 	if now < f.refuseUntil {
 		b = fakeBeh{Login: "refuse"}
+	} else if now < f.dropUntil {
+		b.Drop = true
 	} else if len(f.queue) > 0 {
 		b = f.queue[0]
 		f.queue = f.queue[1:]
@@ -281,7 +292,7 @@ func bScript(k int, rng interface{ Intn(int) int }, thorough bool) (phases []str
 	case 6:
 		return []string{"down:" + dur(500, maxOut), "cut"}, 150
 	case 7:
-		return []string{"drop-after-login:11"}, 20
+		return []string{"drop-for:" + dur(7000, 9000)}, 20
 	case 8:
 		return []string{"cut-mid-registration", "cut-mid-registration"}, 150
 	case 9:
@@ -314,6 +325,7 @@ func bRandomScript(rng interface{ Intn(int) int }) (phases []string, n int) {
 		func() string { return "accept-close:" + dur(500, 25000) },
 		func() string { return "down:" + dur(500, 25000) },
 		func() string { return "drop-after-login:" + strconv.Itoa(2+rng.Intn(7)) },
+		func() string { return "drop-for:" + dur(2000, 25000) },
 		func() string { return "cut-mid-registration" },
 		func() string { return "cut" },
 		func() string { return "cut-quick:" + dur(20, 1500) },
@@ -347,17 +359,33 @@ func clientSideCase(c *h.Case, k int) {
 		OnLogin:   e.fc.onLogin,
 		OnSession: e.fc.onSession,
 		OnWorkConn: func(fs *h.FakeServer, conn net.Conn, m *msg.NewWorkConn) {
+			e.fc.mu.Lock()
+			rec := e.fc.byID[m.RunID]
+			e.fc.mu.Unlock()
+			w := &wcRec{openedAt: h.Now()}
+			if rec != nil {
+				rec.mu.Lock()
+				rec.workConns = append(rec.workConns, w)
+				rec.mu.Unlock()
+			}
 			_, _ = io.Copy(io.Discard, conn) // never started
+			if rec != nil {
+				rec.mu.Lock()
+				w.endedAt = h.Now()
+				rec.mu.Unlock()
+			}
 			conn.Close()
 		},
 	})
 	if err != nil {
+		fmt.Fprintf(os.Stderr, "case %d: scripted server on port %d: %v\n", c.Idx, ports[0], err)
 		run.Inconclusive("B: scripted server did not start")
 		return
 	}
 	defer e.fs.Close()
 	e.relay, err = startFaultRelay(ports[1], fmt.Sprintf("127.0.0.1:%d", ports[0]))
 	if err != nil {
+		fmt.Fprintf(os.Stderr, "case %d: relay on port %d: %v\n", c.Idx, ports[1], err)
 		run.Inconclusive("B: relay did not start")
 		return
 	}
@@ -586,6 +614,26 @@ func (e *bEnv) phase(ph string) bool {
 		} else {
 			stats.add("B_error_pong_to_close", time.Duration(v.closedAt-v.firstErrPong))
 		}
+		if arg == "workconn-setup" {
+			// the work connections the client opened for the dead session are session resources too
+			open := func() (n, open int) {
+				s.mu.Lock()
+				defer s.mu.Unlock()
+				for _, w := range s.workConns {
+					if w.endedAt == 0 {
+						open++
+					}
+				}
+				return len(s.workConns), open
+			}
+			waitUntil(10*time.Second, func() bool { _, o := open(); return o == 0 })
+			if n, o := open(); o > 0 {
+				e.c.Violation("client-work-connection-left-open-after-session-death", "mux=%v heartbeat %d/%d: 10 s after frpc gave up the silent session, %d of the %d work connections it had opened for that session (not yet started by the server) are still open",
+					e.mux, e.pair.I, e.pair.T, o, n)
+			} else {
+				run.Count("B_pending_work_conns_closed_with_session", int64(n))
+			}
+		}
 		e.timed++
 		// a session newer than the silenced one (the fake server may notice the old close after the new login)
 		return e.awaitRecovery(ph, s.LoginAt+1, v.closedAt)
@@ -607,6 +655,17 @@ func (e *bEnv) phase(ph string) bool {
 		time.Sleep(d)
 		e.checkRate("refused-logins", e.fc.logins(start, heal, ""), 10)
 		return e.awaitRecovery("refused-logins", start, heal)
+
+	case "drop-for":
+		d := time.Duration(argN) * time.Millisecond
+		heal := start + int64(d)
+		e.fc.mu.Lock()
+		e.fc.dropUntil = heal
+		e.fc.mu.Unlock()
+		e.relay.CutAll()
+		time.Sleep(d)
+		e.checkRate("sessions-dropped-after-login", e.fc.logins(start, heal, ""), 10)
+		return e.awaitRecovery("dropped-sessions", heal, heal)
 
 	case "silent-logins":
 		for i := 0; i < argN; i++ {
